@@ -87,7 +87,9 @@ def undo_renames(facts, baseline):
     done = []
     for m in missing:
         mod = m.rsplit('::', 1)[0]
-        cands = [f for f in unknown if f['path'].rsplit('::', 1)[0] == mod and _sig(f) == baseline[m] and not f.get('exported')]
+        # an exported function that changes its name is an API change, not a rename - unless nobody outside can
+        # name it (brood's sealed-trait idiom: a public trait in a private `sealed` module)
+        cands = [f for f in unknown if f['path'].rsplit('::', 1)[0] == mod and _sig(f) == baseline[m] and (not f.get('exported') or '::sealed::' in f['path'] or f['path'].startswith('sealed::'))]
         others = [x for x in missing if x != m and x.rsplit('::', 1)[0] == mod and baseline[x] == baseline[m]]
         if len(cands) != 1 or others:
             continue
@@ -107,6 +109,35 @@ def undo_renames(facts, baseline):
                             if 'name' in tgt:
                                 tgt['name'] = old_name
         done.append((new_path, old_path))
+    # a trait method renamed in every impl: the trait's own item (the target of unresolved calls, and a provided
+    # body if there is one) follows
+    import re as _re
+    tr = {}
+    for new_path, old_path in done:
+        m1 = _re.match(r'^<.* as ([^<>]+(?:<.*>)?)>::(\w+)$', new_path)
+        m2 = _re.match(r'^<.* as ([^<>]+(?:<.*>)?)>::(\w+)$', old_path)
+        if m1 and m2 and m1.group(1) == m2.group(1):
+            t_ = m1.group(1).split('<')[0]
+            tr.setdefault((t_, m1.group(2)), set()).add(m2.group(2))
+    for (t_, new_name), olds in tr.items():
+        if len(olds) != 1:
+            continue
+        old_name = next(iter(olds))
+        np_, op_ = t_ + '::' + new_name, t_ + '::' + old_name
+        if op_ in cur and op_ in baseline:
+            continue
+        for g in facts['fns']:
+            if g['path'] == np_:
+                g['path'], g['name'], g['renamed_from'] = op_, old_name, np_
+            for blk in g['mir']['blocks']:
+                t = blk['term']
+                if t.get('k') in ('call', 'tailcall') and 'path' in t.get('f', {}):
+                    for tgt in (t['f'], t['f'].get('res') or {}):
+                        if tgt.get('path') == np_:
+                            tgt['path'] = op_
+                            if 'name' in tgt:
+                                tgt['name'] = old_name
+        done.append((np_, op_))
     return done
 
 
